@@ -127,6 +127,32 @@ def subtree_nodes(stmts: List[ast.stmt]) -> List[ast.AST]:
     return out
 
 
+def forward_dependence(stmts: List[ast.stmt], reads=None) -> Dict[str, Set[str]]:
+    """Dependence along ONE straight-line path, in statement order: a use sees the definitions made before it on the path
+    (names not yet defined on the path stand for their value at the start of the iteration).  Weak updates (in-place
+    methods, out= on an existing buffer that is also read, subscript stores) keep the previous dependences."""
+    env: Dict[str, Set[str]] = {}
+
+    def dep(n: str) -> Set[str]:
+        return env.get(n, {n})
+
+    for st in stmts:
+        order = []
+        for x in ast.walk(st):
+            for name, rd_ in statement_defs(x, reads):
+                order.append((getattr(x, "lineno", 0), getattr(x, "col_offset", 0), x, name, rd_))
+        # inner calls of a chain (a.mul_(b).add_(c)) evaluate left to right: sort by position of the END of the call
+        order.sort(key=lambda t: (getattr(t[2], "end_lineno", t[0]), getattr(t[2], "end_col_offset", t[1])))
+        for _, _, x, name, rd_ in order:
+            new: Set[str] = set()
+            for r in rd_:
+                new |= dep(r) | {r}
+            strong = isinstance(x, ast.Assign) and any(isinstance(t, ast.Name) and t.id == name for t in x.targets)
+            env[name] = new if strong else (dep(name) | new)
+    return env
+
+
+
 # ------------------------------------------------------------------------------------------------
 # flow-sensitive variant: reaching definitions over the statement CFG
 class ReachingDefs:
